@@ -95,7 +95,9 @@ def decide(pid, repo=None, tier='quick', seed=0, only=None):
                 d1_, d2_ = discharged(r), discharged(r2)
                 k2 = {g['key'] for g in r2.findings}
                 k1 = {f['key'] for f in r.findings}
-                keep = [f for f in r.findings if f['key'] in known or f['key'] in k2 or f['construct'] not in d2_]
+                # (a private helper that the normal form absorbed is examined there in the context of each caller, not on its own)
+                keep = [f for f in r.findings if f['key'] in known or f['key'] in k2
+                        or (f['construct'] not in d2_ and f.get('fn') not in prog2.absorbed)]
                 add = [g for g in r2.findings if g['key'] not in k1 and g['key'] not in known
                        and (g['construct'] not in d1_ or g.get('origin'))]
                 if not any(f['key'] not in known for f in keep + add):
